@@ -50,6 +50,7 @@ def NormProg(prog):
   p = StripForTlc(prog)
   p.setdefault('makes', [])
   p.setdefault('rec', [])
+  p['annpreds'] = list(prog.get('annpreds', []))
   for c in p['rec']:
     c.setdefault('iterative', False)
   for pred in p['preds']:
@@ -112,7 +113,7 @@ def ParseVerdictLine(line):
     return None
 
 
-def Validate(lines, tag, shards=None, timeout=3600):
+def Validate(lines, tag, shards=None, timeout=3600, module='LSemTrace'):
   """Writes ndjson shards and runs one TLC (workers 1) per shard in parallel.
 
   Returns (verdicts: {(id, pred): (ok, expected_text)}, stats, errors)."""
@@ -132,7 +133,7 @@ def Validate(lines, tag, shards=None, timeout=3600):
     paths.append(path)
 
   def One(path):
-    return tlc.Run('LSemTrace', workers=1, env={'TRACE_FILE': path},
+    return tlc.Run(module, workers=1, env={'TRACE_FILE': path},
                    timeout=timeout, tag=tag, heap='2g')
   import concurrent.futures as cf
   with cf.ThreadPoolExecutor(max_workers=common.NCPU) as ex:
@@ -141,12 +142,15 @@ def Validate(lines, tag, shards=None, timeout=3600):
   errors = []
   states = 0
   modes = {}
+  musts = {}
   for path, r in zip(paths, results):
     states += r.distinct
     for line in r.out.splitlines():
       v = ParseVerdictLine(line)
       if v:
         verdicts[(v['id'], v['p'])] = (v['ok'], v['exp'])
+        if 'must' in v:
+          musts[(v['id'], v['p'])] = v['must']
         if v.get('mode'):
           modes[v['mode']] = modes.get(v['mode'], 0) + 1
     if r.rc not in (0,) and 'Accepted' not in r.out:
@@ -154,4 +158,4 @@ def Validate(lines, tag, shards=None, timeout=3600):
     elif r.error and 'Accepted' not in r.out and 'is violated' not in r.out:
       errors.append((path, r.rc, r.out[-3000:]))
   return verdicts, {'tlc_states': states, 'shards': len(paths),
-                    'modes': modes}, errors
+                    'modes': modes, 'musts': musts}, errors
